@@ -32,7 +32,7 @@ GUARDS = [
     (PH, "validate_sigma_v", "sigma_v-length", "len(sigma_v) != poly_trend", None),
     (PR, "default_nonlinear_prior", "s-unit", "not isinstance(s, pt.TensorVariable) and (not hasattr(s, 'unit') or not s.unit.is_equivalent(u.km / u.s))", None),
     (PR, "default_nonlinear_prior", "P-bounds", "'P' not in pars and (P_min is None or P_max is None)", None),
-    (PR, "default_linear_prior", "P-e-defined", "P is None or e is None", None),
+    (PR, "default_linear_prior", "P-e-defined", "model.named_vars.get('P', None) is None or model.named_vars.get('e', None) is None", None),
     (PR, "default_linear_prior", "K-scale", "'K' not in pars and (sigma_K0 is None or P0 is None)", None),
     (DH, "validate_prepare_data", "single-no-offsets", "isinstance(data, RVData) and n_offsets != 0", None),
     (DH, "validate_prepare_data", "source-type", "not isinstance(data[IT], RVData)", "data.keys()"),
